@@ -1,4 +1,214 @@
-use crate::{Args, Report};
-pub fn run(_args: &Args) -> Report {
-    Report::new("todo", "".into(), "".into())
+//! B3: the prefilter coherence contract PC, executed on every prefilter the real builder selects:
+//! `None` => no occurrence starts inside the span; `PossibleStartOfMatch(i)` => span.start <= i <=
+//! span.end and no occurrence starts before i; `Match(m)` => m is the searcher's own answer.
+//! Plus: every search API with the prefilter on equals the definition (long haystacks included).
+use crate::eng::{build, with_low, Cfg, Engine, PreCand, StartKindC};
+use crate::gen::{enc_pats, hex, show, show_pats, Rng};
+use crate::oracle::{self, Kind};
+use crate::sem::{check_hay, parse_aspects, Ctx};
+use crate::{par_for, Args, Fail, Report};
+use std::panic::{catch_unwind, AssertUnwindSafe};
+
+pub fn variant(dbg: &str) -> String {
+    for v in ["Memmem", "RareBytesOne", "RareBytesTwo", "RareBytesThree", "StartBytesOne", "StartBytesTwo", "StartBytesThree", "Packed"] {
+        if dbg.contains(v) {
+            return v.to_string();
+        }
+    }
+    "none".into()
+}
+
+/// pattern lists built to activate each prefilter variant
+pub fn pre_lists(thorough: bool, seed: usize) -> Vec<(Vec<Vec<u8>>, Vec<u8>)> {
+    let mut rng = Rng(0x9E37 + seed as u64);
+    let common: &[u8] = b"aet ";
+    let rare: &[u8] = &[b'z', b'q', b'#', b'Z', b'E', b'Q', 0xFF, 0x00, b'@'];
+    let mut v = vec![];
+    let n = if thorough { 3000 } else { 420 };
+    for i in 0..n {
+        // alphabet of this list: a few common and a few rare bytes
+        let mut alpha: Vec<u8> = vec![];
+        for _ in 0..(1 + rng.below(3)) {
+            alpha.push(common[rng.below(common.len())]);
+        }
+        for _ in 0..(rng.below(4)) {
+            alpha.push(rare[rng.below(rare.len())]);
+        }
+        if i % 6 == 4 {
+            // packed prefilter: >= 3 distinct start bytes, min length >= 2, <= 16 patterns
+            alpha = vec![b'a', b'e', b't', b'z', b'q', b'#'];
+        }
+        alpha.sort();
+        alpha.dedup();
+        let npat = match i % 6 {
+            0 => 1,
+            1 => 2,
+            2 => 3,
+            3 => 4 + rng.below(4),
+            4 => 3 + rng.below(6),
+            _ => 1 + rng.below(12),
+        };
+        let mut pats = vec![];
+        for _ in 0..npat {
+            let len = if i % 6 == 4 { 2 + rng.below(5) } else { match rng.below(10) {
+                0 => 1,
+                1..=5 => 2 + rng.below(3),
+                6..=8 => 3 + rng.below(5),
+                _ => 9 + rng.below(12),
+            } };
+            pats.push(rng.bytes(&alpha, len));
+        }
+        // haystack alphabet: the list's alphabet plus bytes that never occur in a pattern
+        let mut halpha = alpha.clone();
+        halpha.extend_from_slice(b"x.");
+        if rng.below(3) == 0 {
+            // letters in the other case (matters for ci)
+            let extra: Vec<u8> = alpha.iter().filter(|b| b.is_ascii_alphabetic()).map(|b| b ^ 0x20).collect();
+            halpha.extend(extra);
+        }
+        v.push((pats, halpha));
+    }
+    v
+}
+
+fn check_pc_one(rep: &Report, cfg: &Cfg, pats: &[Vec<u8>], hay: &[u8], s: usize, e: usize, c: PreCand) {
+    let occs = oracle::occs_in(pats, cfg.ci, hay, s, e, false);
+    let first_start = occs.iter().map(|m| m.start).min();
+    let bad = match c {
+        PreCand::None => {
+            if occs.is_empty() { None } else { Some(format!("Candidate::None but {:?} occurs", occs[0])) }
+        }
+        PreCand::Possible(i) => {
+            if i < s || i > e {
+                Some(format!("PossibleStartOfMatch({}) outside the span", i))
+            } else if first_start.map_or(false, |f| f < i) {
+                Some(format!("PossibleStartOfMatch({}) skips the occurrence starting at {}", i, first_start.unwrap()))
+            } else {
+                None
+            }
+        }
+        PreCand::Match(m) => {
+            let want = oracle::find(pats, cfg.ci, cfg.mk, hay, s, e, false);
+            if want == Some(m) { None } else { Some(format!("Candidate::Match({:?}) but the searcher's answer is {:?}", m, want)) }
+        }
+    };
+    if let Some(w) = bad {
+        rep.fail(Fail {
+            key: format!("pc:{}:ci={}:pats={}:hay={}:span={}..{}", cfg.mk.name(), cfg.ci as u8, show_pats(pats), show(hay), s, e),
+            what: format!("prefilter contract broken for {} [{}] on '{}' span {}..{}: {}", show_pats(pats), cfg.encode(), show(hay), s, e, w),
+            argv: vec!["pc".into(), "--one-cfg".into(), cfg.encode(), "--one-pats".into(), enc_pats(pats), "--one-hay".into(), format!("x{}", hex(hay)), "--one-span".into(), format!("{},{}", s, e)],
+        });
+    }
+}
+
+pub fn run(args: &Args) -> Report {
+    let thorough = args.thorough();
+    let seed = args.num("seed", 0);
+    let aspects = parse_aspects(&args.get("aspects", "find,iter,ov,earliest"));
+    let rep = Report::new(
+        "pc",
+        format!("{} random pattern lists built to activate each prefilter variant (1..12 patterns of length 1..20 over common+rare bytes), x 3 match kinds x ci on/off x {{noncontiguous, contiguous, DFA}} with prefilter on; haystacks: {} random of length 0..12 (every span) + {} long ones (64..300 bytes, planted occurrences, sampled spans)",
+                if thorough { 3000 } else { 420 }, if thorough { 60 } else { 24 }, if thorough { 12 } else { 5 }),
+        "case = (pattern list, configuration, haystack, span): Prefilter::find_in result vs the occurrence definition, and every search API with prefilter on vs the definition; non-trivial = a prefilter was built and some pattern occurs".into(),
+    );
+    if args.has("one-cfg") {
+        let cfg = Cfg::parse(&args.get("one-cfg", ""));
+        let pats = crate::gen::dec_pats(&args.get("one-pats", "-"));
+        let hay = crate::gen::unhex(&args.get("one-hay", "x")[1..]);
+        let sp: Vec<usize> = args.get("one-span", "0,0").split(',').map(|x| x.parse().unwrap()).collect();
+        if let Ok(b) = build(&cfg, &pats) {
+            with_low(&b, &mut |a| {
+                if let Some(c) = a.prefilter_find_in(&hay, sp[0], sp[1]) {
+                    check_pc_one(&rep, &cfg, &pats, &hay, sp[0], sp[1], c);
+                    rep.case(true);
+                }
+            });
+        }
+        return rep;
+    }
+    let lists = pre_lists(thorough, seed);
+    par_for(&lists, |(pats, halpha)| {
+        let mut rng = Rng(pats.len() as u64 * 7919 + pats[0].len() as u64 + seed as u64);
+        // haystacks
+        let mut hays: Vec<Vec<u8>> = vec![];
+        for _ in 0..(if thorough { 60 } else { 24 }) {
+            let l = rng.below(13);
+            hays.push(rng.bytes(halpha, l));
+        }
+        let mut longs: Vec<Vec<u8>> = vec![];
+        for _ in 0..(if thorough { 12 } else { 5 }) {
+            let l = 64 + rng.below(240);
+            let mut h = if rng.below(2) == 0 { rng.bytes(halpha, l) } else { vec![b'x'; l] };
+            for _ in 0..rng.below(4) {
+                let p = &pats[rng.below(pats.len())];
+                if p.len() < l {
+                    let at = rng.below(l - p.len());
+                    h[at..at + p.len()].copy_from_slice(p);
+                }
+            }
+            longs.push(h);
+        }
+        for kind in [Kind::Std, Kind::LF, Kind::LL] {
+            for ci in [false, true] {
+                let mut built = vec![];
+                for (engine, sk, bc) in [(Engine::LowNonContig, StartKindC::B, true), (Engine::LowContig, StartKindC::B, true), (Engine::LowDfa, StartKindC::U, false)] {
+                    let cfg = Cfg { engine, sk, mk: kind, ci, pre: true, dd: None, bc };
+                    if let Ok(Ok(b)) = catch_unwind(AssertUnwindSafe(|| build(&cfg, pats))) {
+                        built.push((cfg, b));
+                    }
+                }
+                if built.is_empty() {
+                    continue;
+                }
+                let mut var = "none".to_string();
+                with_low(&built[0].1, &mut |a| {
+                    var = variant(&a.prefilter_debug());
+                });
+                rep.count(&format!("variant[{}]", var), 1);
+                if var == "none" {
+                    continue;
+                }
+                let ctx = Ctx { rep: &rep, pats, kind, ci };
+                // (1) the prefilter's own contract, every span of every short haystack
+                for (cfg, b) in built.iter().take(1) {
+                    with_low(b, &mut |a| {
+                        for h in &hays {
+                            for s in 0..=h.len() {
+                                for e in s..=h.len() {
+                                    if let Ok(Some(c)) = catch_unwind(AssertUnwindSafe(|| a.prefilter_find_in(h, s, e))) {
+                                        check_pc_one(&rep, cfg, pats, h, s, e, c);
+                                    } else {
+                                        check_pc_one(&rep, cfg, pats, h, s, e, PreCand::Possible(usize::MAX));
+                                    }
+                                    rep.case(true);
+                                }
+                            }
+                        }
+                        for h in &longs {
+                            let mut r2 = Rng(h.len() as u64);
+                            for k in 0..24 {
+                                let (s, e) = if k == 0 { (0, h.len()) } else { let s = r2.below(h.len()); (s, s + r2.below(h.len() - s + 1)) };
+                                if let Ok(Some(c)) = catch_unwind(AssertUnwindSafe(|| a.prefilter_find_in(h, s, e))) {
+                                    check_pc_one(&rep, cfg, pats, h, s, e, c);
+                                }
+                                rep.case(true);
+                            }
+                        }
+                    });
+                }
+                // (2) transparency at the API: prefilter on vs the definition
+                for h in hays.iter().take(if thorough { 30 } else { 10 }) {
+                    check_hay(&ctx, &built, h, aspects | crate::sem::A_SPANS);
+                }
+                for h in &longs {
+                    check_hay(&ctx, &built, h, aspects);
+                }
+                if rep.full() {
+                    return;
+                }
+            }
+        }
+    });
+    rep.sample(format!("e.g. patterns {} over haystack alphabet '{}'", show_pats(&lists[3].0), show(&lists[3].1)));
+    rep
 }
